@@ -285,11 +285,13 @@ def r05_4(ctx):
                 def flat(e):
                     if isinstance(e, ast.BinOp) and isinstance(e.op, ast.Add):
                         flat(e.left); flat(e.right)
+                    elif isinstance(e, ast.Name) and isinstance(sc.reaching(e.id, e), (ast.ListComp, ast.List, ast.BinOp)):
+                        flat(sc.reaching(e.id, e))       # a named piece of the packed list
                     else:
-                        parts.append(ast.unparse(e))
+                        parts.append(e)
                 flat(lst)
                 K = lambda t: Norm(None).key(ast.parse(t, mode="eval").body)
-                ok = [K(x) for x in parts] == [K("[c[0] for c in self.constraints]"), K("[self.objective]"), K("self.initial_keys")]
+                ok = [Norm(None).key(x) for x in parts] == [K("[c[0] for c in self.constraints]"), K("[self.objective]"), K("self.initial_keys")]
                 found += " with res=" + ast.unparse(res)
     ctx.check(ok, "Opti.minimize receives the accumulated objective", detail="packed list unpacked with the wrong offset", expected="res = placeholders(constraints + [objective] + initial_keys); Opti.minimize(self, res[len(constraints)])",
               found=found, fi=g, sample={"minimize": found})
